@@ -131,6 +131,9 @@ type MatcherSpec struct {
 	ErrMissing  *bool           `json:"err_on_missing,omitempty"`
 	Return      json.RawMessage `json:"return,omitempty"`     // custom: value returned
 	ReturnErr   string          `json:"return_err,omitempty"` // custom: error returned
+	// Stmt: options are applied as plain statements on the matcher held in a variable (m := match.Any(..);
+	// m.ErrOnMissingPath(false)) instead of chained calls whose return value is passed on
+	Stmt bool `json:"options_as_statements,omitempty"`
 }
 
 type customObs struct {
@@ -163,6 +166,15 @@ func (rt *matcherRT) build(m MatcherSpec) bothMatcher {
 	switch m.Kind {
 	case "any":
 		a := match.Any(m.Paths...)
+		if m.Stmt {
+			if len(m.Placeholder) > 0 {
+				a.Placeholder(decodeAny(m.Placeholder))
+			}
+			if m.ErrMissing != nil {
+				a.ErrOnMissingPath(*m.ErrMissing)
+			}
+			return a
+		}
 		if len(m.Placeholder) > 0 {
 			a = a.Placeholder(decodeAny(m.Placeholder))
 		}
@@ -173,21 +185,21 @@ func (rt *matcherRT) build(m MatcherSpec) bothMatcher {
 	case "type":
 		switch m.TypeName {
 		case "string":
-			return typeOpt(match.Type[string](m.Paths...), m.ErrMissing)
+			return typeOpt(match.Type[string](m.Paths...), m.ErrMissing, m.Stmt)
 		case "float64":
-			return typeOpt(match.Type[float64](m.Paths...), m.ErrMissing)
+			return typeOpt(match.Type[float64](m.Paths...), m.ErrMissing, m.Stmt)
 		case "bool":
-			return typeOpt(match.Type[bool](m.Paths...), m.ErrMissing)
+			return typeOpt(match.Type[bool](m.Paths...), m.ErrMissing, m.Stmt)
 		case "map":
-			return typeOpt(match.Type[map[string]any](m.Paths...), m.ErrMissing)
+			return typeOpt(match.Type[map[string]any](m.Paths...), m.ErrMissing, m.Stmt)
 		case "slice":
-			return typeOpt(match.Type[[]any](m.Paths...), m.ErrMissing)
+			return typeOpt(match.Type[[]any](m.Paths...), m.ErrMissing, m.Stmt)
 		case "uint64":
-			return typeOpt(match.Type[uint64](m.Paths...), m.ErrMissing)
+			return typeOpt(match.Type[uint64](m.Paths...), m.ErrMissing, m.Stmt)
 		case "int":
-			return typeOpt(match.Type[int](m.Paths...), m.ErrMissing)
+			return typeOpt(match.Type[int](m.Paths...), m.ErrMissing, m.Stmt)
 		case "any":
-			return typeOpt(match.Type[any](m.Paths...), m.ErrMissing)
+			return typeOpt(match.Type[any](m.Paths...), m.ErrMissing, m.Stmt)
 		}
 		panic("unknown type matcher " + m.TypeName)
 	case "custom":
@@ -199,7 +211,9 @@ func (rt *matcherRT) build(m MatcherSpec) bothMatcher {
 			}
 			return decodeAny(m.Return), nil
 		})
-		if m.ErrMissing != nil {
+		if m.ErrMissing != nil && m.Stmt {
+			c.ErrOnMissingPath(*m.ErrMissing)
+		} else if m.ErrMissing != nil {
 			c = c.ErrOnMissingPath(*m.ErrMissing)
 		}
 		return c
@@ -214,7 +228,11 @@ type errOnMissinger[T any] interface {
 func typeOpt[T interface {
 	bothMatcher
 	errOnMissinger[T]
-}](m T, e *bool) bothMatcher {
+}](m T, e *bool, stmt bool) bothMatcher {
+	if e != nil && stmt {
+		m.ErrOnMissingPath(*e)
+		return m
+	}
 	if e != nil {
 		return m.ErrOnMissingPath(*e)
 	}
